@@ -165,8 +165,21 @@ class Evaluator:
                 self.env[key] = new
                 self.stores.append((key, new))
                 return old if n.get("postfix") else new
-            if op == "&" and getattr(self, "heap_mode", False):
-                return self.lkey(n["c"][0])
+            if op == "&":
+                inner = f.strip(n["c"][0], casts=False)
+                if inner is not None and inner["k"] == "ArraySubscriptExpr":
+                    try:
+                        bv = self.ev(f.node(inner["base"]))
+                    except Unknown:
+                        bv = None
+                    if isinstance(bv, int) and not isinstance(bv, bool):
+                        esz = {"char": 1, "unsigned char": 1, "signed char": 1, "const char": 1, "const unsigned char": 1}.get(inner.get("ct", ""), None)
+                        if esz is not None:
+                            return bv + esz * self.ev(f.node(inner["idx"]))
+                    if isinstance(bv, tuple):
+                        return (bv[0], bv[1], bv[2] + self.ev(f.node(inner["idx"])))
+                if getattr(self, "heap_mode", False):
+                    return self.lkey(n["c"][0])
             v = self.ev(n["c"][0])
             if op == "!":
                 return 0 if v else 1
@@ -215,18 +228,36 @@ class Evaluator:
                         args.append(self.ev(f.node(n["obj"])))
                     except Unknown:
                         args.append(None)
+                keys = []
                 for a in f.args(n):
+                    a0 = f.strip(a, casts=True)
+                    if a0 is not None and (a0["k"] in ("ArraySubscriptExpr", "MemberExpr") or (a0["k"] == "UnaryOperator" and a0.get("op") == "*")):
+                        # an lvalue argument: evaluate its designator once (side effects in the subscript happen once)
+                        try:
+                            key = self.lkey(a0)
+                        except Unknown:
+                            key = None
+                        keys.append(key)
+                        args.append(self.env.get(key) if key is not None else None)
+                        continue
+                    keys.append(None)
                     try:
                         args.append(self.ev(a))
                     except Unknown:
                         args.append(None)
                 self.trace.append((nm, args, n))
+                self.argkeys = getattr(self, "argkeys", [])
+                self.argkeys.append((nm, keys))
                 r = self.calls[nm](*args)
                 if r is None:
                     raise Unknown(nm)
                 return r
-            inl = getattr(self, "inline", None)
-            if inl and nm in inl and n.get("callee") and n["callee"]["mn"] in self.prog.functions:
+            inl = getattr(self, "inline", None) or set()
+            auto = False
+            if n.get("callee") and n["callee"].get("dispatch") == "direct" and n["callee"]["mn"] in self.prog.functions and getattr(self, "inline_static", True):
+                g0 = self.prog.functions[n["callee"]["mn"]]
+                auto = bool(g0.d.get("static")) and g0.kind == "function" and g0 is not f and getattr(self, "_depth", 0) < 4
+            if (nm in inl or auto) and n.get("callee") and n["callee"]["mn"] in self.prog.functions:
                 g = self.prog.functions[n["callee"]["mn"]]
                 args = [self.ev(a) for a in f.args(n)]
                 pnames = {q["name"] for q in g.params}
@@ -234,6 +265,7 @@ class Evaluator:
                 senv.update({q["name"]: self.wrap(v, q["ct"]) if isinstance(v, int) else v for q, v in zip(g.params, args)})
                 sub = Evaluator(self.prog, g, env=senv, calls=self.calls)
                 sub.inline = inl
+                sub._depth = getattr(self, "_depth", 0) + 1
                 sub.pass_object = getattr(self, "pass_object", False)
                 sub.heap_mode = getattr(self, "heap_mode", False)
                 sub.run_blocks(g.entry, max_steps=500)
